@@ -296,6 +296,7 @@ def run(ctx):
     _context_rules(ctx, repo)
     # ------------------------------------------------------------------ C06.h
     _component_rules(ctx, repo)
+    _measurement_semantics_rule(ctx, repo)
 
 
 def _recursion_forwarding(ctx, repo):
@@ -462,3 +463,41 @@ def _component_rules(ctx, repo):
         ctx.ob('C06.h', f'ComponentSet.merge:{f}', ok,
                '' if ok else f'merged component\'s `{f}` is not the union of both operands: later conflict checks against the merged component miss them',
                m.rel, merge.lineno)
+
+
+def _measurement_semantics_rule(ctx, repo):
+    """C06.i - rewrites justified by 'this qubit is about to be measured in the computational basis' identify the measurement by its gate."""
+    ctx.decided.append('C06.i a transformer that records qubits as measured in order to alter other operations tests for MeasurementGate itself: protocols.is_measurement() is also '
+                       'true for sub-circuits that rotate before measuring and for Pauli-basis measurements')
+    ctx.rule('C06.i', 'measurement semantics: wherever a transformer collects facts from operations for which is_measurement(op) holds (a set/dict updated in that branch and later '
+             'used to drop or change other operations), the branch is also guarded by isinstance(<op>.gate, MeasurementGate); is_measurement alone admits CircuitOperations and '
+             'PauliMeasurementGate, before which a diagonal gate does matter', floor=4, style='RG')
+    from ..flow import conjuncts
+    n_sites = 0
+    for m in sorted(repo.modules.values(), key=lambda x: x.rel):
+        if '/transformers/' not in m.rel or '/testing/' in m.rel:
+            continue
+        par = m.parents()
+        for fn in [f for f in ast.walk(m.tree) if isinstance(f, ast.FunctionDef)]:
+            for i_ in ast.walk(fn):
+                if not isinstance(i_, ast.If):
+                    continue
+                atoms = conjuncts(i_.test, True)
+                pos = [a for a, pol in atoms if pol and isinstance(a, ast.Call) and call_name(a) == 'is_measurement']
+                if not pos:
+                    continue
+                n_sites += 1
+                # facts recorded in the branch: X.update(...)/X.add(...)/X[k] = ... on a local container
+                # ... facts about the *qubits* (they justify changes to other operations on those qubits); remembering the operation itself in order to move it is not one
+                records = [c for st in i_.body for c in ast.walk(st) if isinstance(c, ast.Call) and isinstance(c.func, ast.Attribute) and c.func.attr in ('update', 'add')
+                           and isinstance(c.func.value, ast.Name)
+                           and any(isinstance(x, ast.Attribute) and x.attr == 'qubits' for a_ in c.args for x in ast.walk(a_))]
+                key = f'{m.name}.{fn.name}:is_measurement@{ast.unparse(pos[0].args[0]) if pos[0].args else "?"}'
+                if not records:
+                    ctx.ob('C06.i', key, True, 'conservative use (the operation is kept / handled as a whole)', m.rel, i_.lineno)
+                    continue
+                gated = any(pol and isinstance(a, ast.Call) and call_name(a) == 'isinstance' and 'MeasurementGate' in ast.unparse(a.args[1]) for a, pol in atoms)
+                ctx.ob('C06.i', key, gated, '' if gated else f'`{ast.unparse(records[0])[:60]}` records facts for every operation with is_measurement(op): a CircuitOperation whose body is '
+                       'H then measure, or a Pauli-X measurement, makes the transformer drop a Z that changes the outcome', m.rel, i_.lineno)
+    if n_sites == 0:
+        raise AnalysisError('no is_measurement() guard left in cirq.transformers')
